@@ -92,18 +92,37 @@ func c16FieldSources(c *Ctx) {
 // asn1.Unmarshal - in place, or in a helper that returns the pointer - rendered in root's frame ("" if unknown).
 func (w *World) rdnSource(root *ssa.Function, seq ssa.Value, at ssa.Instruction) string {
 	seq = throughCell(strip(seq))
-	decodedInto := func(fn *ssa.Function, target ssa.Value) ssa.Value {
+	// decodedInto: the bytes from which fn decodes into target (asn1.Unmarshal(bytes, target) - directly or through
+	// a repository helper that is handed both)
+	var decodedInto func(fn *ssa.Function, target ssa.Value, depth int) ssa.Value
+	decodedInto = func(fn *ssa.Function, target ssa.Value, depth int) ssa.Value {
 		var src ssa.Value
 		n := 0
-		for _, call := range callsTo(fn, "encoding/asn1.Unmarshal") {
+		for _, call := range callsIn(fn) {
 			args := call.Common().Args
-			if len(args) != 2 {
+			if calleeName(call) == "encoding/asn1.Unmarshal" && len(args) == 2 {
+				if throughCell(strip(args[1])) == target {
+					src = args[0]
+					n++
+				}
 				continue
 			}
-			dst := throughCell(strip(args[1]))
-			if dst == target {
-				src = args[0]
-				n++
+			h := call.Common().StaticCallee()
+			if h == nil || depth >= 2 || !w.InRepo(h) || len(h.Blocks) == 0 || call.Common().IsInvoke() {
+				continue
+			}
+			for j, a := range args {
+				if throughCell(strip(a)) != target || j >= len(h.Params) {
+					continue
+				}
+				inner := decodedInto(h, h.Params[j], depth+1)
+				if inner == nil {
+					continue
+				}
+				if p, ok := throughCell(strip(inner)).(*ssa.Parameter); ok && p.Parent() == h && paramIndex(p) < len(args) {
+					src = args[paramIndex(p)]
+					n++
+				}
 			}
 		}
 		if n != 1 {
@@ -113,7 +132,7 @@ func (w *World) rdnSource(root *ssa.Function, seq ssa.Value, at ssa.Instruction)
 	}
 	switch x := seq.(type) {
 	case *ssa.Alloc:
-		if src := decodedInto(x.Parent(), x); src != nil {
+		if src := decodedInto(x.Parent(), x, 0); src != nil {
 			return w.ExprIn(root, src)
 		}
 	case *ssa.Extract, *ssa.Call:
@@ -129,7 +148,7 @@ func (w *World) rdnSource(root *ssa.Function, seq ssa.Value, at ssa.Instruction)
 		if !ok {
 			return ""
 		}
-		src := decodedInto(h, al)
+		src := decodedInto(h, al, 0)
 		p, isParam := throughCell(strip(src)).(*ssa.Parameter)
 		if src == nil || !isParam || paramIndex(p) >= len(call.Call.Args) {
 			return ""
